@@ -72,30 +72,37 @@ def r3(ctx, rep):
     rep.rule("C06.R3", "a piped value is the one further (last) argument of the next pipeline element, elements are folded left to right", floor=2)
     syn = ctx.syn
     f = syn.fn("ast_expand::desugar_pipeline", crate="prqlc")
-    loops = [n for n in walk(f["body"]) if n.get("k") == "for"]
-    if len(loops) != 1:
-        raise AnchorMissing("desugar_pipeline: the loop over the pipeline's elements")
-    lp = loops[0]
-    elem = [x["n"] for x in walk(lp["pat"]) if x.get("k") == "p_ident"]
-    # the accumulator: the mutable local assigned inside the loop
-    assigns = [n for n in walk(lp["body"]) if n.get("k") == "assign" and n["lhs"].get("k") == "path"]
-    acc = assigns[0]["lhs"]["p"] if assigns else None
     import alpha
     A = alpha.Inliner(f)
+    # the iteration over the remaining elements: a `for` loop with an accumulator that is re-assigned, or `fold` / `try_fold(init, |acc, elem| ..)`
+    elem = acc = it = where = None
+    loops = [n for n in walk(f["body"]) if n.get("k") == "for"]
+    folds = [n for n in walk(f["body"]) if n.get("k") == "mcall" and n["m"] in ("fold", "try_fold") and len(n["a"]) == 2 and n["a"][1].get("k") == "closure"]
+    if len(loops) == 1 and not folds:
+        lp = loops[0]
+        names = [x["n"] for x in walk(lp["pat"]) if x.get("k") == "p_ident"]
+        assigns = [n for n in walk(lp["body"]) if n.get("k") == "assign" and n["lhs"].get("k") == "path"]
+        elem, acc, it, where = (names[0] if names else None), (assigns[0]["lhs"]["p"] if assigns else None), lp["e"], lp["body"]
+    elif len(folds) == 1 and not loops:
+        cl = folds[0]["a"][1]
+        names = [[x["n"] for x in walk(p_) if x.get("k") == "p_ident"] for p_ in cl["params"]]
+        if len(names) == 2 and names[0] and names[1]:
+            acc, elem, it, where = names[0][0], names[1][0], folds[0]["r"], cl["body"]
+    if elem is None or acc is None:
+        raise AnchorMissing("desugar_pipeline: the iteration over the pipeline's elements (a for loop with an accumulator, or a fold)")
     ok, found = False, None
-    for a in assigns:
-        for n in walk(a["rhs"]):
-            if n.get("k") == "call" and last_seg(show(n["f"])) == "new_simple" and "FuncCall" in show(n["f"]) and len(n["a"]) == 2:
-                callee, args = A.show(n["a"][0], strip=True), show(n["a"][1]).replace(" ", "")
-                found = (callee, args)
-                # the callee is the (expanded) loop element, the argument list is exactly [accumulator]
-                ok = bool(elem) and re.search(r"\b" + re.escape(elem[0]) + r"\b", callee) is not None and args in (f"vec!({acc})", f"vec![{acc}]", f"[{acc}].into()", f"vec!({acc},)")
+    for n in walk(where):
+        if n.get("k") == "call" and last_seg(show(n["f"])) == "new_simple" and "FuncCall" in show(n["f"]) and len(n["a"]) == 2:
+            callee, args = A.show(n["a"][0], strip=True), show(n["a"][1]).replace(" ", "")
+            found = (callee, args)
+            # the callee is the (expanded) element, the argument list is exactly [accumulator]
+            ok = re.search(r"\b" + re.escape(elem) + r"\b", callee) is not None and args in (f"vec!({acc})", f"vec![{acc}]", f"[{acc}].into()", f"vec!({acc},)")
     rep.check(ok, "piped-value-is-sole-argument", f"desugar_pipeline must turn `value | element` into the call of `element` with the single argument `value` (so that `x | f a` is `f a x`); found {found}",
-              file=f["file"], line=lp["l"], fn=f["path"])
+              file=f["file"], line=f["l"], fn=f["path"])
     # left to right: the first element is the initial value (`remove(0)` / `into_iter().next()` before the loop), the loop runs over the rest in order
     txt = show_stmts(f["body"], maxdepth=10)
     first = re.search(r"\.remove\(0\)|\.into_iter\(\)\.next\(\)|split_first|\.next\(\)", txt) is not None
-    rev = ".rev()" in show(lp["e"], maxdepth=8)
+    rev = ".rev()" in show(it, maxdepth=8)
     rep.check(first and not rev, "left-to-right", "the first element of a pipeline is the initial value and the remaining elements are applied in order (no reversal)", file=f["file"], line=f["l"], fn=f["path"])
 
 
